@@ -265,6 +265,15 @@ func TestVerif_C27(t *testing.T) {
 				syncModel()
 			}
 			rec.Distinct(fmt.Sprintf("v%d|proc=%d|%s|%s|%s", vers, proc, pcls, shape, out))
+			// read everything back (every second step): all three DUMP variants and the two lookups
+			// of the key just used must tell what GetMappings() holds now - whatever happened
+			// before (a reply served earlier must not outlive a later change of the registry)
+			if rng.Intn(2) == 0 {
+				if what := vfC27ReadBack(pm, key, uint32(5000+i)); what != "" {
+					fail("C27/read-back-disagrees-with-registry/"+strings.SplitN(what, ":", 2)[0], op+" then "+what)
+				}
+				rec.Add("read_backs", 1)
+			}
 		}
 		if ep == 0 {
 			rec.Sample(map[string]any{"ops": ops})
@@ -348,4 +357,71 @@ func vfSameMappings(a, b []PortMapping) bool {
 	sort.Strings(ka)
 	sort.Strings(kb)
 	return strings.Join(ka, "|") == strings.Join(kb, "|")
+}
+
+// vfC27ReadBack asks a loopback peer for DUMP (v2, v3, v4), GETPORT (v2) and GETADDR (v3) and
+// compares every answer with GetMappings(). It returns "" or "<facet>: <what differs>".
+func vfC27ReadBack(pm *Portmapper, key vfPmKey, xid uint32) string {
+	reg := map[vfPmKey]uint32{}
+	for _, m := range pm.GetMappings() {
+		reg[vfPmKey{m.Program, m.Version, m.Protocol}] = m.Port
+	}
+	lo, _ := net.ResolveTCPAddr("tcp", "127.0.0.1:777")
+	call := func(vers, proc uint32, args []byte) ([]byte, string) {
+		raw, err := pm.handleCall(append(xdrw.CallHeader(xid, 100000, vers, proc, xdrw.Cred{}), args...), lo)
+		if err != nil {
+			return nil, fmt.Sprintf("no reply: %v", err)
+		}
+		rep, derr := rfc.DecodeReply(raw)
+		if derr != nil || rep.Denied || rep.AcceptStat != 0 {
+			return nil, fmt.Sprintf("not accepted: %v", derr)
+		}
+		return rep.Body, ""
+	}
+	for _, vers := range []uint32{2, 3, 4} {
+		body, e := call(vers, 4, nil)
+		if e != "" {
+			return fmt.Sprintf("dump-v%d: %s", vers, e)
+		}
+		var ents []rfc.PmapEntry
+		var derr error
+		if vers == 2 {
+			ents, derr = rfc.DecodePmapDump(body)
+		} else {
+			ents, derr = rfc.DecodeRpcbDump(body)
+		}
+		if derr != nil {
+			return fmt.Sprintf("dump-v%d: undecodable: %v", vers, derr)
+		}
+		if len(ents) != len(reg) {
+			return fmt.Sprintf("dump-v%d: %d entries, registry has %d", vers, len(ents), len(reg))
+		}
+		for _, e := range ents {
+			if vers != 2 {
+				e.Prot = map[string]uint32{"tcp": 6, "udp": 17, "tcp6": 6, "udp6": 17}[e.Netid]
+				e.Port, _ = vfUaddrPort(e.Addr)
+			}
+			if p, ok := reg[vfPmKey{e.Prog, e.Vers, e.Prot}]; !ok || p != e.Port {
+				return fmt.Sprintf("dump-v%d: reports (%d,%d,%d) -> %d, registry says %d (present=%v)", vers, e.Prog, e.Vers, e.Prot, e.Port, p, ok)
+			}
+		}
+	}
+	body, e := call(2, 3, (&xdrw.W{}).U32(key.prog).U32(key.vers).U32(key.prot).U32(0).B)
+	if e != "" {
+		return "getport: " + e
+	}
+	if v, derr := rfc.DecodeU32(body); derr != nil || v != reg[key] {
+		return fmt.Sprintf("getport: answered %d (%v), registry has %d", v, derr, reg[key])
+	}
+	netid := map[uint32]string{6: "tcp", 17: "udp"}[key.prot]
+	body, e = call(3, 3, (&xdrw.W{}).U32(key.prog).U32(key.vers).Str(netid).Str("").Str("").B)
+	if e != "" {
+		return "getaddr: " + e
+	}
+	sv, derr := rfc.DecodeString(body)
+	got, ok := vfUaddrPort(sv)
+	if want := reg[key]; derr != nil || want == 0 && sv != "" || want != 0 && (!ok || got != want) {
+		return fmt.Sprintf("getaddr: answered %q (%v), registry has port %d", sv, derr, want)
+	}
+	return ""
 }
